@@ -441,6 +441,14 @@ class LoadJudge(Judge):
             for n in _seq(surf['class_aliases']):
                 if n not in assigns:
                     bad('stub %s lacks the alias binding %s' % (ns, n))
+                if not inspect.isclass(getattr(mod, n, None)):
+                    bad('stub %s declares the alias binding %s, the runtime module does not define it' % (ns, n))
+            # names bound to classes: the stub and the runtime module agree
+            rt_bound = {k for k, v in vars(mod).items() if inspect.isclass(v) and v.__module__.startswith(m.pkg + '.')}
+            stub_bound = set(classes) | {k for k in assigns if k in surf_names(surf)}
+            if rt_bound != stub_bound:
+                bad('names bound to classes differ: only in the stub %s, only at runtime %s'
+                    % (sorted(stub_bound - rt_bound), sorted(rt_bound - stub_bound)))
             for r in _seq(surf['routes']):
                 pn = py_route_name(r['n'], r['ver'])
                 if assigns.get(pn) != 'bb.Route':
@@ -573,6 +581,10 @@ def _chain(sc, n):
         out.append(n)
         n = sc[n]['parent']
     return out[::-1]
+
+
+def surf_names(surf):
+    return {s_['n'] for s_ in _seq(surf['structs'])} | {u['n'] for u in _seq(surf['unions'])} | set(_seq(surf['class_aliases']))
 
 
 def _unalias(sc, t):
